@@ -6,6 +6,7 @@ import (
 	"go/types"
 	"math"
 	"math/bits"
+	"strings"
 
 	"golang.org/x/tools/go/ssa"
 )
@@ -111,12 +112,17 @@ func (m *Machine) binop(op token.Token, x, y Val, xt, rt types.Type, in ssa.Inst
 // named operands gets the expression as its name, so that byte layouts can be
 // compared symbolically.
 func (m *Machine) arith(op token.Token, a, b Int, rt types.Type) Val {
+	if a.L != nil || b.L != nil {
+		if r, ok := laneArith(op, a, b, rt); ok {
+			return r
+		}
+	}
 	r := m.arith0(op, a, b, rt)
 	ri, ok := r.(Int)
 	if !ok || ri.IsConst() {
 		return r
 	}
-	if ri == a || ri == b { // operand returned unchanged (e.g. x % c with x < c)
+	if sameInt(ri, a) || sameInt(ri, b) { // operand returned unchanged (e.g. x % c with x < c)
 		return ri
 	}
 	an, bn := nameOf(a), nameOf(b)
@@ -931,3 +937,103 @@ func lenOf(v Val) Int {
 
 // LenOf returns the abstract length of a sequence value.
 func LenOf(v Val) Int { return lenOf(v) }
+
+func sameInt(a, b Int) bool {
+	return a.Lo == b.Lo && a.Hi == b.Hi && a.Top == b.Top && a.In == b.In && a.Off == b.Off && a.Name == b.Name && len(a.L) == len(b.L)
+}
+
+// lanesOf returns the little-endian byte lanes of v for a type of n bytes.
+func lanesOf(v Int, n int) ([]string, bool) {
+	if v.L != nil {
+		out := make([]string, n)
+		for i := range out {
+			if i < len(v.L) {
+				out[i] = v.L[i]
+			} else {
+				out[i] = "0"
+			}
+		}
+		return out, true
+	}
+	if v.IsConst() {
+		out := make([]string, n)
+		for i := range out {
+			b := (uint64(v.Lo) >> (8 * uint(i))) & 0xff
+			out[i] = fmt.Sprint(b)
+		}
+		return out, true
+	}
+	if n == 1 && v.Name != "" {
+		return []string{v.Name}, true
+	}
+	return nil, false
+}
+
+func laneArith(op token.Token, a, b Int, rt types.Type) (Val, bool) {
+	bitsN, _, ok := typeBits(rt)
+	if !ok {
+		return nil, false
+	}
+	n := bitsN / 8
+	mk := func(l []string) Val {
+		allConst := true
+		var u uint64
+		for i, s := range l {
+			var x uint64
+			if _, err := fmt.Sscanf(s, "%d", &x); err != nil || fmt.Sprint(x) != s {
+				allConst = false
+				break
+			}
+			u |= x << (8 * uint(i))
+		}
+		if allConst {
+			return K(wrapConst(int64(u), rt))
+		}
+		return Int{Top: true, L: l, Name: "lanes[" + strings.Join(l, ",") + "]"}
+	}
+	switch op {
+	case token.SHL, token.SHR:
+		if !b.IsConst() || b.Lo%8 != 0 || b.Lo < 0 {
+			return nil, false
+		}
+		la, ok := lanesOf(a, n)
+		if !ok {
+			return nil, false
+		}
+		k := int(b.Lo / 8)
+		out := make([]string, n)
+		for i := range out {
+			src := i - k
+			if op == token.SHR {
+				src = i + k
+			}
+			if src >= 0 && src < n {
+				out[i] = la[src]
+			} else {
+				out[i] = "0"
+			}
+		}
+		return mk(out), true
+	case token.OR, token.XOR:
+		la, ok1 := lanesOf(a, n)
+		lb, ok2 := lanesOf(b, n)
+		if !ok1 || !ok2 {
+			return nil, false
+		}
+		out := make([]string, n)
+		for i := range out {
+			switch {
+			case la[i] == "0":
+				out[i] = lb[i]
+			case lb[i] == "0":
+				out[i] = la[i]
+			case op == token.XOR && la[i] == lb[i]:
+				out[i] = "0"
+			default:
+				out[i] = "(" + la[i] + op.String() + lb[i] + ")"
+			}
+		}
+		return mk(out), true
+	}
+	return nil, false
+}
